@@ -85,6 +85,7 @@ struct th {
 	unsigned op_sleeps, op_steps;
 	int64_t op_deadline_ns;
 	int op_deadline_strict;
+	unsigned free_yields;     /* yields made inside a strict-deadline call, past the deadline, while the watched mutex word showed no holder */
 	unsigned long sleeps;
 	uint64_t rng;
 	int fault_plan[32]; int n_fault; int futex_waits;
@@ -573,7 +574,7 @@ void rt_sleep_us (unsigned us) {
 }
 void rt_op_deadline (int64_t d) { if (me >= 0) T[me].op_deadline_ns = d; }
 void rt_op_deadline_strict (int64_t d) { if (me >= 0) { T[me].op_deadline_ns = d; T[me].op_deadline_strict = (d > 0 && d < INT64_MAX / 2); } }
-void rt_op_begin (const char *op) { if (me >= 0) { T[me].op = op; T[me].at = NULL; T[me].op_deadline_ns = 0; T[me].op_deadline_strict = 0; T[me].op_sleeps = 0; T[me].op_steps = 0; } }
+void rt_op_begin (const char *op) { if (me >= 0) { T[me].op = op; T[me].at = NULL; T[me].op_deadline_ns = 0; T[me].op_deadline_strict = 0; T[me].free_yields = 0; T[me].op_sleeps = 0; T[me].op_steps = 0; } }
 void rt_op_end (void) { if (me >= 0) T[me].op = NULL; }
 unsigned rt_op_sleeps (void) { return (me >= 0 ? T[me].op_sleeps : 0); }
 unsigned rt_op_steps (void) { return (me >= 0 ? T[me].op_steps : 0); }
@@ -703,6 +704,20 @@ struct timespec rt_deadline_in (int64_t ns) { int64_t v = rt_now_ns () + ns; str
 void __real_nsync_yield_ (void) __attribute__ ((weak));
 void real_cpp_yield (void) __asm__ ("__real__ZN5nsync12nsync_yield_Ev") __attribute__ ((weak));
 static void do_yield (void) {
+	if (me >= 0 && mode_b && sched_active && T[me].op && T[me].op_deadline_strict && vclock_ns > T[me].op_deadline_ns + 1000 && watched[0].addr != NULL) {
+		/* C05 "needs no further wake-up": past its deadline a call may spin only while the mutex (or its queue spinlock) is
+		   busy, or for the few steps a waker needs to finish with its waiter record.  Yielding again and again while the
+		   mutex word shows no holder and no spinlock means the call is waiting for somebody else's wake-up. */
+		uint32_t w = __atomic_load_n ((const volatile uint32_t *) watched[0].addr, __ATOMIC_RELAXED);
+		if ((w & (1u | 2u | ~(uint32_t) 0xff)) == 0) {
+			if (++T[me].free_yields > 400) {
+				char sig[200], detail[400];
+				snprintf (sig, sizeof (sig), "%s.%s", T[me].op, T[me].at ? T[me].at : "");
+				snprintf (detail, sizeof (detail), "thread %d has yielded %u times inside %s (last step in %s) past its deadline %lld ns (clock %lld ns) while the mutex word (%#x) showed no holder: the call is waiting for a wake-up it should not need", me, T[me].free_yields, T[me].op, T[me].at ? T[me].at : "?", (long long) T[me].op_deadline_ns, (long long) vclock_ns, w);
+				die_with ("spinning-past-deadline", sig, detail, 10);
+			}
+		}
+	}
 	if (me >= 0 && mode_b && sched_active) { if (ring_on) ring_put (EV_YIELD, NULL, 0, NULL); sched_point (1); return; }
 	if (me >= 0) __atomic_fetch_add (&g_stamp, 1, __ATOMIC_RELAXED);
 	raw_yield ();
